@@ -53,10 +53,14 @@ EpItem(ov, mig, rep, feat, gen, rev) ==
                       \o <<H("do_it", "exec", <<>>)>>
                       \o (IF mig THEN <<H("migrate", "migrate", <<>>)>> ELSE <<>>)
                       \o (IF rep THEN <<replyH>> ELSE <<>>)]
+MembersReversed(it) ==      \* `new` stays first; the handlers follow in the opposite order
+    [it EXCEPT !.id = @ \o "m", !.members = <<@[1]>> \o Reverse(Tail(@))]
 EpFamily == {EpItem(ov, mig, rep, feat, gen, FALSE) :
                 ov \in SUBSET AllKinds, mig \in BOOLEAN, rep \in BOOLEAN, feat \in BOOLEAN, gen \in BOOLEAN}
        \cup {EpItem(ov, mig, rep, FALSE, FALSE, TRUE) :       \* the same overrides declared in the opposite order (C14)
                 ov \in {o \in SUBSET AllKinds : Cardinality(o) >= 2}, mig \in BOOLEAN, rep \in BOOLEAN}
+       \cup {MembersReversed(EpItem(ov, mig, rep, feat, FALSE, FALSE)) :      \* the same handlers declared in the opposite order (C14)
+                ov \in {{}, {"exec"}, {"migrate"}, {"reply"}}, mig \in BOOLEAN, rep \in BOOLEAN, feat \in BOOLEAN}
 
 (* ------------------------------------------------------------------ pt *)
 (* attribute pools per site; choice 0 = nothing *)
@@ -95,7 +99,15 @@ PtItem(mac, c) ==      \* c: choice per site <<item, handler, helper, handler pa
        ELSE [BaseItem(id, "pt", mac) EXCEPT
                !.attrs = Pick(ItemPool, c[1]),
                !.members = <<New, H("instantiate", "instantiate", <<>>), handler, helper>>]
-PtFamily == {PtItem(mac, c) : mac \in {"contract", "interface", "entry_points"}, c \in [1..5 -> 0..PtChoices]}
+(* attributes on the item that mention the lint the contract macro itself allows *)
+PtLintItem(i) ==
+    LET base == PtItem("contract", [x \in 1..5 |-> 0]) IN
+    [base EXCEPT !.id = "PL" \o ToString(i),
+                 !.attrs = CASE i = 1 -> <<A("allow", "clippy::new_without_default")>>
+                             [] i = 2 -> <<A("allow", "clippy::new_without_default, non_snake_case, unused_variables")>>
+                             [] i = 3 -> <<A("allow", "dead_code"), A("allow", "non_snake_case, clippy::new_without_default")>>
+                             [] OTHER -> <<A("deny", "clippy::new_without_default"), A("sv::error", "ContractError")>>]
+PtFamily == {PtLintItem(i) : i \in 1..4} \cup {PtItem(mac, c) : mac \in {"contract", "interface", "entry_points"}, c \in [1..5 -> 0..PtChoices]}
 
 (* ------------------------------------------------------------------ fw *)
 Marker(i) == A("doc", "= \"m" \o ToString(i) \o "\"")
@@ -117,24 +129,29 @@ WithForward(members, f, mk) ==
         ELSE IF f.site = "field" /\ members[i].name = f.method
         THEN [members[i] EXCEPT !.params = [x \in 1..Len(@) |-> IF @[x].n = f.param THEN [@[x] EXCEPT !.attrs = <<mk>>] ELSE @[x]]]
         ELSE members[i]]
-FwItem(mac, s1, s2) ==      \* two markers at two (possibly equal-kind) sites
-    LET ms0 == IF mac = "interface"
+(* on a handler argument the marker may be wrapped in a conditional attribute with a true predicate: it is *)
+(* forwarded as written and still takes effect on the field                                                  *)
+Wrapped(mk) == A("cfg_attr", "all(), " \o mk.p \o " " \o mk.t)
+FwItem(mac, s1, s2, wrap) ==      \* two markers at two (possibly equal-kind) sites
+    LET m1 == IF wrap /\ s1.site = "field" THEN Wrapped(Marker(1)) ELSE Marker(1)
+        m2 == IF wrap /\ s2.site = "field" THEN Wrapped(Marker(2)) ELSE Marker(2)
+        ms0 == IF mac = "interface"
                THEN SelectSeq(FwMethods, LAMBDA m : m.kind \in {"exec", "query", "sudo"})
                ELSE <<New>> \o FwMethods
-        ms1 == WithForward(ms0, s1, Marker(1))
-        ms2 == WithForward(ms1, s2, Marker(2))
+        ms1 == WithForward(ms0, s1, m1)
+        ms2 == WithForward(ms1, s2, m2)
         typeAttrs == (IF s1.site = "type" THEN <<A("sv::msg_attr", s1.kind \o ", " \o Marker(1).p \o " " \o Marker(1).t)>> ELSE <<>>)
                   \o (IF s2.site = "type" THEN <<A("sv::msg_attr", s2.kind \o ", " \o Marker(2).p \o " " \o Marker(2).t)>> ELSE <<>>)
     IN [BaseItem("F", "fw", mac) EXCEPT
           !.attrs = typeAttrs \o (IF mac = "interface" THEN <<A("sv::custom", "msg = Empty, query = Empty")>> ELSE <<>>),
           !.self_ty = IF mac = "interface" THEN "Iface" ELSE "Ctr",
           !.members = [i \in 1..Len(ms2) |-> IF mac = "interface" THEN [ms2[i] EXCEPT !.body = ""] ELSE ms2[i]],
-          !.forwards = <<[s1 EXCEPT !.m = Marker(1)] , [s2 EXCEPT !.m = Marker(2)]>>]
+          !.forwards = <<[s1 EXCEPT !.m = m1] , [s2 EXCEPT !.m = m2]>>]
 FwSitesFor(mac) == IF mac = "interface"
                    THEN {s \in FwSites : s.kind \in {"exec", "query", "sudo", "reply"} \/ s.site = "type"}
                    ELSE FwSites
 FwSeq(mac) == SetToSeq({<<s1, s2>> \in FwSitesFor(mac) \X FwSitesFor(mac) : s1 # s2})
-FwFamily == UNION {{[FwItem(mac, [FwSeq(mac)[i][1] EXCEPT !.m = Marker(1)], [FwSeq(mac)[i][2] EXCEPT !.m = Marker(2)])
+FwFamily == UNION {{[FwItem(mac, [FwSeq(mac)[i][1] EXCEPT !.m = Marker(1)], [FwSeq(mac)[i][2] EXCEPT !.m = Marker(2)], i % 2 = 1)
                         EXCEPT !.id = "F" \o (IF mac = "contract" THEN "c" ELSE "i") \o ToString(i)] :
                       i \in 1..Len(FwSeq(mac))} : mac \in {"contract", "interface"}}
 
@@ -160,9 +177,16 @@ GenItem(ti, te, tq, tr, id) ==      \* types of: instantiate arg, exec arg, quer
                      [H("ask", "query", <<GP("q", tq)>>) EXCEPT
                         !.ret = "StdResult<" \o tr.ty \o ">", !.retm = tr.mentions],
                      H("poke", "sudo", <<>>)>>]
+(* a query that names its response type with `resp=`: the (aliased) return type of the signature does not count *)
+GenRespItem(tq, tr, id) ==
+    LET base == GenItem(TyDirect(TP(GenParams)), TyNone, tq, tr, id) IN
+    [base EXCEPT !.members[4] = [@ EXCEPT !.attrs = <<A("sv::msg", "query, resp = " \o tr.ty)>>,
+                                         !.ret = "Audited<" \o TP(GenParams) \o ">"]]
 RespTypes == {TyNone} \cup {TyDirect(TP(i)) : i \in 1..GenParams}
 GenSeq == SetToSeq(ArgTypes \X ArgTypes \X ArgTypes \X RespTypes)
+GenRespSeq == SetToSeq({TyNone, TyDirect(TP(1))} \X {TyNone, TyDirect(TP(1))})
 GenFamily == {GenItem(GenSeq[i][1], GenSeq[i][2], GenSeq[i][3], GenSeq[i][4], "G" \o ToString(i)) : i \in 1..Len(GenSeq)}
+        \cup {GenRespItem(GenRespSeq[i][1], GenRespSeq[i][2], "GR" \o ToString(i)) : i \in 1..Len(GenRespSeq)}
 
 
 (* ---------------------------------------------------------------- rule *)
@@ -176,6 +200,8 @@ IfaceHost == [BaseItem("ihost", "rule", "interface") EXCEPT
                !.attrs = <<A("sv::custom", "msg = Empty, query = Empty")>>, !.self_ty = "Iface",
                !.members = <<[H("foo", "exec", <<P("x", "u32")>>) EXCEPT !.body = ""], [H("ask", "query", <<P("q", "u32")>>) EXCEPT !.body = ""]>>]
 RH(name, on, params) == [H(name, "reply", params) EXCEPT !.attrs = <<A("sv::msg", "reply, reply_on = " \o on)>>, !.ret = "Result<Response, ContractError>"]
+RH2(name, on, params) == [RH(name, on, params) EXCEPT !.attrs = <<A("sv::msg", "reply, handlers = [shared], reply_on = " \o on)>>]
+RawPn(n) == [P(n, "Binary") EXCEPT !.attrs = <<A("sv::payload", "raw")>>]
 DataP(attr) == [P("data", "Binary") EXCEPT !.attrs = <<attr>>]
 RawP == [P("payload", "Binary") EXCEPT !.attrs = <<A("sv::payload", "raw")>>]
 Bad(host, id, rule, f) == [f EXCEPT !.id = id, !.rule = rule, !.expect = "dirty"]
@@ -213,6 +239,21 @@ RuleFamily == {
     Bad(ReplyHost, "X_datainstraw", "sv_data_instantiate_with_raw", AddMember(ReplyHost, RH("on_done", "success", <<DataP(A("sv::data", "instantiate, raw")), RawP>>))),
     Bad(ReplyHost, "X_payloadempty", "sv_payload_without_argument", AddMember(ReplyHost, RH("on_done", "success", <<[P("payload", "Binary") EXCEPT !.attrs = <<A("sv::payload", "")>>]>>))),
     Bad(ReplyHost, "X_payloadarg", "unknown_sv_payload_argument", AddMember(ReplyHost, RH("on_done", "success", <<[P("payload", "Binary") EXCEPT !.attrs = <<A("sv::payload", "foo")>>]>>))),
+    \* the same offences in the method declared second for a reply name two methods share
+    Bad(ReplyHost, "X_r2_afterraw", "parameter_after_raw_payload_in_second_method",
+        AddMember(AddMember(ReplyHost, RH2("on_err", "error", <<P("e", "String"), P("tag", "Binary"), P("note", "Binary")>>)),
+                  RH2("on_ok", "success", <<RawPn("tag"), P("note", "Binary")>>))),
+    Bad(ReplyHost, "X_r2_beforeraw", "parameter_before_raw_payload_in_second_method",
+        AddMember(AddMember(ReplyHost, RH2("on_ok", "success", <<P("tag", "Binary"), P("note", "Binary")>>)),
+                  RH2("on_err", "error", <<P("e", "String"), P("tag", "Binary"), RawPn("note")>>))),
+    Bad(ReplyHost, "X_r2_payloadarg", "unknown_sv_payload_argument_in_second_method",
+        AddMember(AddMember(ReplyHost, RH2("on_err", "error", <<P("e", "String"), P("tag", "Binary")>>)),
+                  RH2("on_ok", "success", <<[P("tag", "Binary") EXCEPT !.attrs = <<A("sv::payload", "foo")>>]>>))),
+    Bad(ReplyHost, "X_r2_dataarg", "unknown_sv_data_argument_in_second_method",
+        AddMember(AddMember(ReplyHost, RH2("on_err", "error", <<P("e", "String"), P("tag", "Binary")>>)),
+                  RH2("on_ok", "success", <<DataP(A("sv::data", "foo")), P("tag", "Binary")>>))),
+    Ok(AddMember(AddMember(ReplyHost, RH2("on_err", "error", <<P("e", "String"), P("tag", "Binary")>>)),
+                 RH2("on_ok", "success", <<DataP(A("sv::data", "raw, opt")), P("tag", "Binary")>>)), "K_r2_ok"),
     Bad(RuleHost, "X_features", "unknown_feature", [RuleHost EXCEPT !.attrs = @ \o <<A("sv::features", "bogus")>>]),
     Bad(RuleHost, "X_customarg", "unknown_sv_custom_argument", [RuleHost EXCEPT !.attrs = @ \o <<A("sv::custom", "foo = Empty")>>]),
     Bad(RuleHost, "X_messages", "trailing_tokens_in_sv_messages", [RuleHost EXCEPT !.attrs = @ \o <<A("sv::messages", "i1 as Iface1 garbage")>>]),
